@@ -2,6 +2,7 @@ SPECIFICATION Spec
 CONSTANTS
   Tier = "thorough"
 CONSTRAINT Export
+INVARIANT FineCoding
 INVARIANT WellFormedCases
 INVARIANT ParserAgrees
 INVARIANT ImplIffValid
